@@ -123,6 +123,11 @@ fn trees(r: &mut Report) {
         // links whose own text is much shorter than the file they lead to (and the other way round)
         T { id: "short-link-to-long-file", build: |d| { std::fs::write(d.join("out.txt"), vec![b'x'; 70_000]).unwrap(); symlink("out.txt", d.join("latest")).unwrap();
             std::fs::create_dir_all(d.join("deep/er")).unwrap(); std::fs::write(d.join("deep/er/tiny"), "t").unwrap(); symlink("deep/er/../../deep/er/../er/tiny", d.join("long-link-to-tiny-file")).unwrap(); } },
+        // deep and wide: 70 nested directories with a file at several depths (also far below any plausible link-depth limit), a chain
+        // of twelve links, a directory with 600 entries
+        T { id: "very-deep-nesting", build: |d| { let mut p = d.to_path_buf(); for i in 0..70 { p = p.join(format!("d{}", i % 10)); std::fs::create_dir_all(&p).unwrap(); if i % 8 == 7 || i >= 38 && i <= 44 || i == 69 { std::fs::write(p.join(format!("f{}", i)), format!("{}", i)).unwrap(); } } } },
+        T { id: "long-chain-of-links", build: |d| { std::fs::write(d.join("target"), "t").unwrap(); let mut prev = "target".to_string(); for i in 0..12 { let n = format!("l{}", i); symlink(&prev, d.join(&n)).unwrap(); prev = n; } } },
+        T { id: "very-wide-directory", build: |d| { std::fs::create_dir_all(d.join("w")).unwrap(); for i in 0..600 { std::fs::write(d.join(format!("w/f{:04}", i)), format!("{}", i)).unwrap(); } } },
         T { id: "symlink-to-symlink-to-file", build: |d| { std::fs::write(d.join("target"), "t").unwrap(); symlink(d.join("target"), d.join("l1")).unwrap(); symlink(d.join("l1"), d.join("l2")).unwrap(); } },
     ];
     for t in ts.iter() {
